@@ -25,6 +25,9 @@ type c13File struct {
 type c13Case struct {
 	Files []c13File
 	Auto  bool // decoders obtained through DecoderFor (as the commands do) instead of explicit ones
+	// Behind > 0 (with Auto): every input is a seekable reader positioned behind that many bytes which the caller has
+	// consumed already (stdin redirected from a file after a header line was read, a section of a larger file)
+	Behind int `json:",omitempty"`
 }
 
 func runC13(c c13Case) error {
@@ -38,7 +41,14 @@ func runC13(c c13Case) error {
 		}
 		total += len(f.Results)
 		if c.Auto {
-			d := vegeta.DecoderFor(bytes.NewReader(data))
+			src := bytes.NewReader(data)
+			if c.Behind > 0 {
+				src = bytes.NewReader(append(bytes.Repeat([]byte("#preamble\n"), c.Behind/10+1)[:c.Behind], data...))
+				if _, err := io.CopyN(io.Discard, src, int64(c.Behind)); err != nil {
+					return err
+				}
+			}
+			d := vegeta.DecoderFor(src)
 			if d == nil {
 				return fmt.Errorf("file %d (%s, %d records): DecoderFor returned nil", i, f.Codec, len(f.Results))
 			}
@@ -93,6 +103,9 @@ func runC13(c c13Case) error {
 func c13Gen(t *rapid.T, minLen int) c13Case {
 	nf := rapid.IntRange(1, 6).Draw(t, "nfiles")
 	c := c13Case{Auto: rapid.Bool().Draw(t, "auto")}
+	if c.Auto && rapid.IntRange(0, 2).Draw(t, "behind") == 0 {
+		c.Behind = rapid.SampledFrom([]int{1, 10, 500, 5000}).Draw(t, "behindn")
+	}
 	for i := 0; i < nf; i++ {
 		f := c13File{Codec: rapid.SampledFrom([]string{"gob", "csv", "json"}).Draw(t, fmt.Sprintf("codec%d", i))}
 		var n int
